@@ -569,8 +569,29 @@ namespace
                 m_ops.push_back(make_op(s));
                 lst.ops.push_back(m_ops.back());
             }
-            auto seq = fs::make_flow_operator_sequence<impl_type>(lst);
-            m_owned = std::make_unique<FG>(ga.grid(), std::move(seq));
+            // The sequence reaches the graph through one of the three ways user code can build it
+            // (chosen by a pure function of the case, so that every program shape meets each of
+            // them on some grid): moved straight in; default-constructed, then move-ASSIGNED (as
+            // test_sink_resolver.cpp does; seeded change C09-E lives in that operator); or
+            // move-assigned over a sequence that held another program before.
+            size_t how = (ga.size() + specs.size()) % 4;
+            if (how == 0 || how == 2)
+            {
+                auto seq = fs::make_flow_operator_sequence<impl_type>(lst);
+                m_owned = std::make_unique<FG>(ga.grid(), std::move(seq));
+            }
+            else if (how == 1)
+            {
+                fs::flow_operator_sequence<impl_type> seq;
+                seq = fs::make_flow_operator_sequence<impl_type>(lst);
+                m_owned = std::make_unique<FG>(ga.grid(), std::move(seq));
+            }
+            else
+            {
+                fs::flow_operator_sequence<impl_type> seq(fs::pflood_sink_resolver(), fs::multi_flow_router(1.0));
+                seq = fs::make_flow_operator_sequence<impl_type>(lst);
+                m_owned = std::make_unique<FG>(ga.grid(), std::move(seq));
+            }
             m_g = m_owned.get();
         }
         GraphAdapter(GridAdapter& ga, std::unique_ptr<FG> owned)
